@@ -27,7 +27,7 @@ TRUSTED_BASE = [
 ]
 ASSUMPTIONS = [
     "the model is tied to the CAM/VAM/DENM builders by execution on the same reports, not by proof",
-    "int(x * k) of the code is a float product; the model truncates the exact rational product. Inputs whose exact product lies within 1e-9 (relative) of an integer without being one are not generated (there the two may legitimately differ by one unit)",
+    "int(x * k) of the code is a float product; the model truncates the exact rational product. Inputs whose exact product lies within 1e-12 (relative, at least 1e-9 absolute) of an integer without being one are not generated (there the two may legitimately differ by one unit; the float product is within 1.2e-16 relative of the exact one)",
     "report values are finite doubles (gpsd JSON cannot carry NaN/inf); `time` is present in every report",
     "the DENM of the collision-risk request kind carries an event position that the caller supplies already in data-element units; the harness supplies the units its own oracle expects",
     "messages are captured at the BTP service access point (BTPDataRequest.data), i.e. exactly what is handed to the lower layers",
@@ -50,10 +50,14 @@ SCALE = {"lat": 10**7, "lon": 10**7, "altHAE": 100, "speed": 100, "track": 10, "
 # --------------------------------------------------------------------------- input generation
 
 def ambiguous(x: float, k: int) -> bool:
-    """exact product within 1e-9 (relative) of an integer without being that integer"""
+    """exact product within 1e-12 (relative; at least 1e-9 absolute) of an integer without being that integer.
+    The code's float product x * k is correctly rounded: it differs from the exact product by at most 2^-53
+    (1.2e-16) relative, so truncation of the two can differ only inside a band four orders of magnitude narrower
+    than this one. (Audit round: the band was 1e-9 relative, i.e. more than half a unit for |lat|, |lon| > 50 degrees -
+    beyond +-50 degrees only values with an exactly integral product were generated.)"""
     p = Fraction(x) * k
     n = round(p)
-    return p != n and abs(p - n) < Fraction(1, 10**9) * max(1, abs(p))
+    return p != n and abs(p - n) < max(Fraction(1, 10**9), Fraction(1, 10**12) * abs(p))
 
 
 def pick(rng, lo, hi, specials, k, amb=True):
@@ -102,6 +106,11 @@ def gen_report(rng, ts, keys=None, wide=False):
             rep[k] = pick(rng, 0.0, 400.0, [0.0, 0.05, 0.1, 12.4, 12.5, 12.6, 12.75, 25.6, 360.0], 10)
     if rng.random() < 0.04:
         del rep["lat"], rep["lon"]
+    if rng.random() < 0.03:
+        # JSON numbers without a fraction arrive as Python ints ("speed": 0, "track": 90)
+        for k in list(rep):
+            if k != "ts" and rng.random() < 0.6:
+                rep[k] = int(rep[k])
     return rep
 
 
@@ -302,15 +311,60 @@ def denm_view(data):
     d = denm_coder().decode(data)
     m = d["denm"]["management"]
     ep = m["eventPosition"]
+    e = ep["positionConfidenceEllipse"]
     return d, {"lat": ep["latitude"], "lon": ep["longitude"], "alt": ep["altitude"]["altitudeValue"],
                "referenceTime": m["referenceTime"], "detectionTime": m["detectionTime"], "stationType": m["stationType"],
-               "stationId": d["header"]["stationId"], "seq": m["actionId"]["sequenceNumber"]}
+               "stationId": d["header"]["stationId"], "seq": m["actionId"]["sequenceNumber"],
+               "ep_nested": [ep["altitude"]["altitudeConfidence"], e["semiMajorConfidence"], e["semiMinorConfidence"],
+                             e["semiMajorOrientation"]]}
 
 
 def canonical(coder, name, data):
     """valid UPER: decodes, and the decoded value re-encodes to the same octets"""
     d = coder.asn_coder.decode(name, data)
     return coder.asn_coder.encode(name, d) == data
+
+
+SPECIALS = [None,
+            ("publicTransportContainer", {"embarkationStatus": True}),
+            ("specialTransportContainer", {"specialTransportType": (b"\xa0", 4), "lightBarSirenInUse": (b"\x80", 2)}),
+            ("roadWorksContainerBasic", {"lightBarSirenInUse": (b"\x00", 2)}),
+            ("rescueContainer", {"lightBarSirenInUse": (b"\x80", 2)}),
+            ("emergencyContainer", {"lightBarSirenInUse": (b"\xc0", 2)}),
+            ("safetyCarContainer", {"lightBarSirenInUse": (b"\x40", 2)})]
+
+
+def vehicle_of(case):
+    """static vehicle data of a CAM case (defaults = the values used before the audit round)"""
+    v = {"length": 45, "length_conf": "unavailable", "width": 20, "direction": "forward", "lights": 0}
+    v.update(case.get("vehicle") or {})
+    return v
+
+
+def special_of(case):
+    return SPECIALS[case.get("special", 0) % len(SPECIALS)]
+
+
+def expected_path(rep, t, hist):
+    """path history a CAM sent at time t from report rep can carry: the positions of the earlier CAMs of this
+    activation, newest first, relative to the current position in 1e-7 degree, up to the first one outside the
+    DeltaLatitude / DeltaLongitude range, at most 23 points; age in 10 ms (1..65534).
+    Returns (points as (dlat, dlon, dt) exact rationals, sure) - sure = no point sits at a range end"""
+    if "lat" not in rep or "lon" not in rep:
+        return [], True
+    pts, sure = [], True
+    for (hlat, hlon, ht) in reversed(hist):
+        dlat = (Fraction(hlat) - Fraction(rep["lat"])) * 10**7
+        dlon = (Fraction(hlon) - Fraction(rep["lon"])) * 10**7
+        edge = any(abs(abs(d) - lim) < 2 for d in (dlat, dlon) for lim in (131071, 131072, 131071.5))
+        if edge:
+            sure = False
+        if not (-131071.5 <= dlat <= 131072.5 and -131071.5 <= dlon <= 131072.5):
+            break
+        pts.append((dlat, dlon, Fraction(t - ht, 10)))
+        if len(pts) >= 23:
+            break
+    return pts, sure
 
 
 def run_cam_case(case):
@@ -323,12 +377,26 @@ def run_cam_case(case):
     FakeTimer.reset()
     VCLOCK.set_ms(case["t0"])
     btp = Btp()
+    veh = vehicle_of(case)
     vd = ctm.VehicleData(station_id=case.get("station_id", 1234567), station_type=case["station_type"],
-                         drive_direction="forward", vehicle_role=case["role"],
-                         vehicle_length={"vehicleLengthValue": 45, "vehicleLengthConfidenceIndication": "unavailable"},
-                         vehicle_width=20)
+                         drive_direction=veh["direction"], vehicle_role=case["role"],
+                         vehicle_length={"vehicleLengthValue": veh["length"], "vehicleLengthConfidenceIndication": veh["length_conf"]},
+                         vehicle_width=veh["width"], exterior_lights=bytes([veh["lights"]]),
+                         special_vehicle_data=special_of(case))
     mgr = ctm.CAMTransmissionManagement(btp, cam_coder(), vd)
     out = []
+    hist = []       # (lat, lon, time) of the CAMs of this activation that carried a position (what a path history holds)
+
+    def note_cams(n0, rep_now):
+        """times of the CAMs sent since n0 and the path each of them can refer to"""
+        times, hists = [], []
+        for (t, _, _) in btp.sent[n0:]:
+            times.append(t)
+            hists.append(list(hist))
+            if "lat" in rep_now and "lon" in rep_now:
+                hist.append((rep_now["lat"], rep_now["lon"], t))
+                del hist[:-40]
+        return times, hists
 
     def fire_until(limit_ms, stop_on_cam_from=None):
         errs = []
@@ -349,28 +417,62 @@ def run_cam_case(case):
         return errs
 
     mgr.start()
+    if case.get("mode") == "drive":
+        # a drive: reports at their own cadence, the timer running in between; every CAM belongs to the report that
+        # was the latest when it was sent
+        period = case["period"]
+        last_cam_t = None
+        for k, rep in enumerate(case["reports"]):
+            mgr.location_service_callback(tpv_of(rep))
+            n0 = len(btp.sent)
+            _logcatch.records.clear()
+            errs = fire_until(VCLOCK.ms + period - 1)
+            times, hists = note_cams(n0, rep)
+            VCLOCK.set_ms(case["t0"] + (k + 1) * period)
+            if times:
+                last_cam_t = times[-1]
+            out.append({"sent": [x[2] for x in btp.sent[n0:]], "ports": [x[1] for x in btp.sent[n0:]], "times": times,
+                        "hist": hists, "log": list(_logcatch.records), "err": errs, "pending": len(FakeTimer.pending()),
+                        "quiet_ms": VCLOCK.ms - (last_cam_t if last_cam_t is not None else case["t0"])})
+        mgr.stop()
+        return out
+    prev_rep = None
     for rep in case["reports"]:
         if case.get("mode") == "restart":
             mgr.stop()
             VCLOCK.advance(50)
             mgr.location_service_callback(tpv_of(rep))
             mgr.start()
+            hist.clear()
         else:
+            nb = len(btp.sent)
             fire_until(VCLOCK.ms + 1000)
+            if prev_rep is not None:
+                note_cams(nb, prev_rep)
             VCLOCK.set_ms(max(VCLOCK.ms, rep["ts"] and VCLOCK.ms))
             mgr.location_service_callback(tpv_of(rep))
+        prev_rep = rep
         n0 = len(btp.sent)
         _logcatch.records.clear()
         errs = fire_until(VCLOCK.ms + 1300, stop_on_cam_from=n0)
-        out.append({"sent": [x[2] for x in btp.sent[n0:]], "ports": [x[1] for x in btp.sent[n0:]],
+        times, hists = note_cams(n0, rep)
+        out.append({"sent": [x[2] for x in btp.sent[n0:]], "ports": [x[1] for x in btp.sent[n0:]], "times": times, "hist": hists,
+                    "first_of_activation": case.get("mode") == "restart",
                     "log": list(_logcatch.records), "err": errs, "pending": len(FakeTimer.pending())})
     mgr.stop()
     return out
 
 
-def drive_cluster(cm, state, rep):
-    """bring a real VBSClusteringManager into the named clustering state through its public API"""
+VRU_PROFILES = ("pedestrian", "bicyclistAndLightVruVehicle", "motorcyclist", "animal")     # bit 0..3 of VruClusterProfiles
+
+
+def drive_cluster(cm, state, rep, leave_reason=None, breakup_reason=None):
+    """bring a real VBSClusteringManager into the named clustering state through its public API; leave_reason /
+    breakup_reason: index into the members of ClusterLeaveReason / ClusterBreakupReason (audit round: every member,
+    not only safetyCondition / notProvided)"""
     from flexstack.facilities.vru_awareness_service.vru_clustering import ClusterLeaveReason, ClusterBreakupReason
+    lr = list(ClusterLeaveReason)[leave_reason % len(ClusterLeaveReason)] if leave_reason is not None else ClusterLeaveReason.SAFETY_CONDITION
+    br = list(ClusterBreakupReason)[breakup_reason % len(ClusterBreakupReason)] if breakup_reason is not None else ClusterBreakupReason.NOT_PROVIDED
     lat, lon = rep.get("lat", 41.0), rep.get("lon", 2.0)
 
     def nearby_vam(sid, cluster_id=None):
@@ -419,7 +521,7 @@ def drive_cluster(cm, state, rep):
         upd()
         cm.on_received_vam(nearby_vam(900, cluster_id=21))
         if state == "leave_notify":
-            cm.trigger_leave_cluster(ClusterLeaveReason.SAFETY_CONDITION)
+            cm.trigger_leave_cluster(lr)
         elif state == "leader_lost":
             VCLOCK.advance(2000)
             upd()
@@ -428,7 +530,7 @@ def drive_cluster(cm, state, rep):
             cm.on_received_vam(nearby_vam(sid))
         cm.try_create_cluster(lat, lon)
         if state in ("leader_breakup", "leader_breakup_expiring"):
-            cm.trigger_breakup_cluster(ClusterBreakupReason.NOT_PROVIDED)
+            cm.trigger_breakup_cluster(br)
             VCLOCK.advance(500 if state == "leader_breakup" else 2700)
 
 
@@ -468,8 +570,9 @@ def run_vam_case(case):
     if case["cluster"] != "none":
         import flexstack.facilities.vru_awareness_service.vru_clustering as vc
         vc.random = _Shim(_real_random, randint=lambda a, b: 77)
-        cm = VBSClusteringManager(own_station_id=77, own_vru_profile="pedestrian", time_fn=lambda: VCLOCK.ms / 1000)
-        drive_cluster(cm, case["cluster"], case["reports"][0])
+        cm = VBSClusteringManager(own_station_id=77, own_vru_profile=VRU_PROFILES[case.get("profile", 0) % 4],
+                                  time_fn=lambda: VCLOCK.ms / 1000)
+        drive_cluster(cm, case["cluster"], case["reports"][0], case.get("leave_reason"), case.get("breakup_reason"))
         info["state"] = cm.state.value
     mgr = vtm.VAMTransmissionManagement(btp, vam_coder(), vtm.DeviceDataProvider(station_id=77, station_type=case["station_type"]),
                                         clustering_manager=cm)
@@ -559,6 +662,89 @@ def run_denm_case(case):
     return out
 
 
+def run_denm_overlap_case(case):
+    """case: {"kind":"denm","request":"eva_overlap","t0":ms,"station_type":n,"duration":T,"interval":i,
+    "gaps":[ms from one trigger to the next...],"reports":[rep...],"nested":[[altitudeConfidence, semiMajor, semiMinor,
+    orientation] per report]}.  ONE EmergencyVehicleApproachingService is triggered once per report while the
+    repetitions of the earlier events are still running (deterministic virtual-time thread runner of C17). Every
+    DENM handed to BTP is attributed to the trigger whose thread produced it."""
+    from flexstack.utils import time_service
+    import flexstack.facilities.decentralized_environmental_notification_service.denm_transmission_management as dtm
+    import flexstack.facilities.decentralized_environmental_notification_service.den_service as dsm
+    from flexstack.facilities.decentralized_environmental_notification_service.den_service import \
+        DecentralizedEnvironmentalNotificationService
+    dsm.DENMCoder = denm_coder
+    from flexstack.facilities.ca_basic_service.cam_transmission_management import VehicleData
+    import flexstack.applications.road_hazard_signalling_service.emergency_vehicle_approaching_service as eva
+    from flexstack.facilities.local_dynamic_map import ldm_classes as lc
+    from .c17_sched import VSched
+    attach_log()
+    _phase[0] = 0.25
+    time_service.TimeService.time = staticmethod(_vtime)
+    for m in (dtm, eva, lc):
+        if hasattr(m, "TimeService"):
+            m.TimeService.time = staticmethod(_vtime)
+    sched = VSched()
+    dtm.threading = _Shim(_real_threading, Thread=sched.thread_factory(), Timer=FakeTimer)
+    dtm.time = _Shim(_real_time, sleep=sched.sleep, time=_vtime)
+    VCLOCK.set_ms(case["t0"])
+    captured = []       # (virtual ms, trigger index, port, payload)
+
+    class BtpStub:
+        def btp_data_request(self, request):
+            cur = sched.current
+            captured.append((VCLOCK.ms, cur.tag if cur is not None else None, request.destination_port, bytes(request.data)))
+
+        def register_indication_callback_btp(self, port, callback):
+            pass
+
+    vd = VehicleData(station_id=case.get("station_id", 99), station_type=case["station_type"], drive_direction="forward",
+                     vehicle_length={"vehicleLengthValue": 45, "vehicleLengthConfidenceIndication": "unavailable"},
+                     vehicle_width=20)
+    den = DecentralizedEnvironmentalNotificationService(BtpStub(), vd)
+    svc = eva.EmergencyVehicleApproachingService(den, duration=case["duration"])
+    svc.denm_interval = case["interval"]
+    errs, metas = [], []
+    t = case["t0"]
+    crashed = None
+    try:
+        for k, rep in enumerate(case["reports"]):
+            if k:
+                t += case["gaps"][(k - 1) % len(case["gaps"])]
+            sched.run_until(t)
+            nested = (case.get("nested") or [None])[k % len(case.get("nested") or [None])]
+            if nested is not None:
+                # the application's own confidence data for this event (public attribute of the service)
+                svc.event_position["altitude"]["altitudeConfidence"] = nested[0]
+                svc.event_position["positionConfidenceEllipse"] = {"semiMajorConfidence": nested[1], "semiMinorConfidence": nested[2],
+                                                                   "semiMajorOrientation": nested[3]}
+            metas.append({"detection": svc.detection_time, "nested": nested if nested is not None else ["unavailable", 4095, 4095, 3601],
+                          "t": t})
+            sched.next_tag = k
+            err = None
+            try:
+                svc.trigger_denm_sending(tpv_of(rep))
+                sched.run_until(t)
+            except Exception as e:
+                err = f"{type(e).__name__}: {e}"
+            errs.append(err)
+        if not sched.run_all(t + case["duration"] + case["interval"] + 1000):
+            crashed = "a repetition thread is still running after the duration of its event"
+    except Exception as e:
+        crashed = f"a repetition thread raised {type(e).__name__}: {e}"
+    left = sched.abandon()
+    out = []
+    for k, rep in enumerate(case["reports"]):
+        mine = [c for c in captured if c[1] == k]
+        err = errs[k] if k < len(errs) else None
+        if crashed and k == len(case["reports"]) - 1:
+            err = crashed
+        out.append({"sent": [c[3] for c in mine], "ports": [c[2] for c in mine], "times": [c[0] for c in mine], "err": err,
+                    "meta": dict(metas[k] if k < len(metas) else {}, now_its=None),
+                    "stray": [c[0] for c in captured if c[1] is None] if k == 0 else [], "left": left if k == 0 else 0})
+    return out
+
+
 def expected_codes_for_request(rep):
     """event position in data-element units as the CDD defines them (used to build the collision-risk request)"""
     w = {"lat": int(Fraction(rep["lat"]) * 10**7) if "lat" in rep else 900000001,
@@ -585,11 +771,15 @@ def check_cases(ctx, cases, tag):
             obs = run_cam_case(case)
         elif kind == "vam":
             obs, info = run_vam_case(case)
+        elif case.get("request") == "eva_overlap":
+            obs = run_denm_overlap_case(case)
         else:
             obs = run_denm_case(case)
         for i, (rep, o) in enumerate(zip(case["reports"], obs)):
             one = dict(case)
             one["reports"] = case["reports"][:i + 1] if kind == "cam" and case.get("mode") != "restart" else [rep]
+            if case.get("request") == "eva_overlap":
+                one["reports"] = case["reports"]        # the later triggers are part of the input of this event
             inp = {"case": one}
             ctx.count(1, f"{kind}_{tag}" + (f"_{case['cluster']}" if kind == "vam" and tag != "rand" else ""))
             views = check_one(ctx, kind, case, rep, o, info, inp)
@@ -638,6 +828,25 @@ def check_one(ctx, kind, case, rep, o, info, inp):
         if not o["sent"]:
             return views
     want_n = 2 if (kind == "denm" and case["request"] == "eva") else 1
+    if kind == "cam" and case.get("mode") == "drive":
+        # several reports per CAM or several CAMs per report: what must not happen is a stall (T_GenCamMax plus one
+        # check period and one report period without a CAM)
+        want_n = 0
+        k = len(inp["case"]["reports"]) - 1
+        quiet = o.get("quiet_ms", 0)
+        if quiet > 1000 + 100 + case["period"]:
+            extra = "; ".join(o.get("log", [])[:2])
+            ctx.property_failure("cam_generation_failed", inp, f"no CAM for {quiet} ms during the drive (report {k})"
+                                 + (f" ({extra})" if extra else ""), "CAM", None)
+    overlap = kind == "denm" and case["request"] == "eva_overlap"
+    if overlap:
+        want_n = -(-case["duration"] // case["interval"])
+        if o.get("stray") or o.get("left"):
+            ctx.property_failure("denm_generation_failed", inp, "DENMs outside any trigger / repetition threads left over",
+                                 [0, 0], [len(o.get("stray") or []), o.get("left")])
+        if len(o["sent"]) > want_n:
+            ctx.property_failure("denm_repetition_count", inp, f"{len(o['sent'])} DENMs for one trigger, expected {want_n}",
+                                 want_n, len(o["sent"]))
     if len(o["sent"]) < want_n:
         extra = "; ".join(o.get("log", [])[:2])
         ctx.property_failure(f"{kind}_generation_failed", inp,
@@ -669,7 +878,7 @@ def check_one(ctx, kind, case, rep, o, info, inp):
             ctx.property_failure(f"{kind}_field_{field}", inp, f"{field}: decoded {obs}, report gives {exp}", exp, obs)
         # (the emergency-vehicle request overwrites the management container's stationType with its own
         #  rhs_vehicle_type = 0; that is what the service intends, see design/C11.md)
-        want_st = 0 if (kind == "denm" and case["request"] == "eva") else case["station_type"]
+        want_st = 0 if (kind == "denm" and case["request"] in ("eva", "eva_overlap")) else case["station_type"]
         if view["stationType"] != want_st:
             ctx.property_failure(f"{kind}_station_type", inp, "stationType differs from the configured one",
                                  want_st, view["stationType"])
@@ -682,6 +891,14 @@ def check_one(ctx, kind, case, rep, o, info, inp):
             if view["detectionTime"] != meta["detection"]:
                 ctx.property_failure("denm_detection_time", inp, "detectionTime differs from the request", meta["detection"],
                                      view["detectionTime"])
+            if overlap:
+                # every repetition carries the nested members (altitude confidence, confidence ellipse) its OWN
+                # trigger was made with, whatever later triggers of the same application wrote meanwhile
+                if view["ep_nested"] != list(meta["nested"]):
+                    ctx.property_failure("denm_field_eventPositionConfidence", inp,
+                                         f"repetition {j} of the event: altitude confidence / confidence ellipse differ "
+                                         "from those of its own trigger", list(meta["nested"]), view["ep_nested"])
+                ctx.count(1, "denm_overlap_repetition")
         if kind == "cam":
             lf = full["cam"]["camParameters"].get("lowFrequencyContainer")
             if lf is not None:
@@ -691,6 +908,63 @@ def check_one(ctx, kind, case, rep, o, info, inp):
                 if lf[1]["vehicleRole"] != roles[case["role"]]:
                     ctx.property_failure("cam_vehicle_role", inp, "vehicleRole differs from the configured one",
                                          roles[case["role"]], lf[1]["vehicleRole"])
+                veh = vehicle_of(case)
+                if norm(lf[1]["exteriorLights"]) != norm((bytes([veh["lights"]]), 8)):
+                    ctx.property_failure("cam_vehicle_data", inp, "exteriorLights differ from the configured ones",
+                                         norm((bytes([veh["lights"]]), 8)), norm(lf[1]["exteriorLights"]))
+                if "hist" in o and j < len(o["hist"]):
+                    # path history: the positions of the earlier CAMs relative to this one
+                    want, sure = expected_path(rep, o["times"][j], o["hist"][j])
+                    got = [(q["pathPosition"]["deltaLatitude"], q["pathPosition"]["deltaLongitude"], q["pathDeltaTime"])
+                           for q in lf[1]["pathHistory"]]
+                    bad = None
+                    if sure and len(got) != len(want):
+                        bad = f"{len(got)} path points, {len(want)} earlier CAM positions are within the delta range"
+                    for n_, (g, w) in enumerate(zip(got, want)):
+                        dt = min(65534, max(1, round(w[2])))
+                        if abs(g[0] - w[0]) > 1 or abs(g[1] - w[1]) > 1 or abs(g[2] - dt) > 1 or not (1 <= g[2] <= 65534) \
+                                or not (-131071 <= g[0] <= 131072) or not (-131071 <= g[1] <= 131072):
+                            bad = bad or (f"path point {n_}: decoded (dLat, dLon, dt) = {g}, the CAM sent {float(w[2]) * 10:.0f} ms "
+                                          f"earlier was at ({float(w[0]):.1f}, {float(w[1]):.1f}) 1e-7 deg from here")
+                    if bad:
+                        ctx.property_failure("cam_path_history", inp, bad, [[float(a), float(b), float(c)] for a, b, c in want][:4],
+                                             got[:4])
+                    if want:
+                        ctx.count(1, "cam_path_history_points_%s" % ("1-5" if len(want) <= 5 else "6-22" if len(want) < 23 else "23"))
+            # static vehicle data in the high-frequency container
+            hf = full["cam"]["camParameters"]["highFrequencyContainer"][1]
+            veh = vehicle_of(case)
+            got_v = [hf["driveDirection"], hf["vehicleLength"]["vehicleLengthValue"],
+                     hf["vehicleLength"]["vehicleLengthConfidenceIndication"], hf["vehicleWidth"]]
+            want_v = [veh["direction"], veh["length"], veh["length_conf"], veh["width"]]
+            if got_v != want_v:
+                ctx.property_failure("cam_vehicle_data", inp, "drive direction / vehicle length / width differ from the "
+                                     "configured vehicle data", want_v, got_v)
+            # special vehicle container: only for a role other than default, then the configured one
+            sv = full["cam"]["camParameters"].get("specialVehicleContainer")
+            if sv is not None and (case["role"] == 0 or norm(sv) != norm(special_of(case))):
+                ctx.property_failure("cam_special_vehicle_container", inp, "special vehicle container differs from the "
+                                     "configured one (none for the default role)", norm(special_of(case)) if case["role"] else None, norm(sv))
+            if sv is None and case["role"] != 0 and special_of(case) is not None and lf is not None and o.get("first_of_activation"):
+                ctx.property_failure("cam_special_vehicle_container", inp, "the first CAM of a special vehicle lacks its "
+                                     "special vehicle container", norm(special_of(case)), None)
+            if sv is not None:
+                ctx.count(1, "cam_special_vehicle_container")
+            # extension containers: two-wheeler container exactly for cyclist / moped / motorcycle; all decodable
+            ids = []
+            for ec in full["cam"]["camParameters"].get("extensionContainers") or []:
+                ids.append(ec["containerId"])
+                try:
+                    cam_coder().decode_extension_container(ec["containerId"], ec["containerData"])
+                except Exception as e:
+                    ctx.property_failure("cam_extension_container", inp, f"extension container {ec['containerId']} does not "
+                                         f"decode: {type(e).__name__}", "decodable", ec["containerData"].hex())
+            if (1 in ids) != (case["station_type"] in (2, 3, 4)) or any(i_ not in (1, 3) for i_ in ids) or len(set(ids)) != len(ids):
+                ctx.property_failure("cam_extension_container", inp, "extension containers: two-wheeler container (1) exactly for "
+                                     "station types 2-4, besides it only the very-low-frequency container (3)",
+                                     [1] if case["station_type"] in (2, 3, 4) else [], ids)
+            if ids:
+                ctx.count(1, "cam_extension_containers_" + "+".join(str(i_) for i_ in sorted(ids)))
         if kind == "vam" and case["cluster"] != "none":
             p = full["vam"]["vamParameters"]
             exp = o["exp"]
@@ -708,12 +982,17 @@ def check_one(ctx, kind, case, rep, o, info, inp):
                 e = exp["info"]["vruClusterInformation"]
                 shape = g.get("clusterBoundingBoxShape")
                 radius = shape[1].get("radius") if isinstance(shape, (tuple, list)) else None
+                want_bits = [bytes([0x80 >> (case.get("profile", 0) % 4)]).hex(), 4]
+                if norm(g.get("clusterProfiles")) != want_bits:
+                    ctx.property_failure("vam_cluster_information_container", inp, "clusterProfiles is not the bit of the "
+                                         "leader's own VRU profile (" + VRU_PROFILES[case.get("profile", 0) % 4] + ")",
+                                         want_bits, norm(g.get("clusterProfiles")))
                 if g.get("clusterId") != e.get("clusterId") or g.get("clusterCardinalitySize") != e.get("clusterCardinalitySize") \
                         or not (1 <= g.get("clusterId", 0) <= 255) or g.get("clusterCardinalitySize", 0) < 1 \
                         or radius is None or radius < 1:
                     ctx.property_failure("vam_cluster_information_container", inp, "cluster information differs from the "
                                          "clustering manager's (id 1..255, cardinality >= 1, radius >= 1)", norm(e), norm(g))
-        if j == 0:
+        if j == 0 or overlap:
             views.append((kind, {k: view[k] for k in view if k in ("gdt", "lat", "lon", "alt", "altconf", "major", "minor",
                                                                      "heading", "hconf", "speed")}))
     return views
@@ -736,18 +1015,35 @@ def check_gdt_reconstruct(ctx, pairs):
     got = []
     rx = CAMReceptionManagement(cam_coder(), R())
     rx.add_application_callback(got.append)
+    # the VRU service reconstructs the generation time of received VAMs the same way (its receiver hands the VAM with
+    # its utc_timestamp to the LDM adapter)
+    import flexstack.facilities.vru_awareness_service.vam_reception_management as vrm
+    from flexstack.facilities.vru_awareness_service.vam_transmission_management import VAMMessage
+    vrm.TimeService.time = staticmethod(_vtime)
+
+    class VamSink:
+        def add_provider_data_to_ldm(self, vam):
+            got.append(vam)
+
+    vrx = vrm.VAMReceptionManagement(vam_coder(), R(), vru_basic_service_ldm=VamSink())
     reqs, keep = [], []
-    for (T, age) in pairs:
-        cam = CooperativeAwarenessMessage()
-        cam.fullfill_with_tpv_data(tpv_of({"ts": T, "lat": 41.0, "lon": 2.0}))
-        data = cam_coder().encode(cam.cam)
+    for n_, (T, age) in enumerate(pairs):
+        via_vam = bool(n_ % 3 == 2) if not isinstance(age, dict) else False
         VCLOCK.set_ms(T + age)
         got.clear()
-        rx.reception_callback(SimpleNamespace(data=data))
-        ctx.count(1, "gdt_reconstruct" if age < 65536 else "gdt_reconstruct_older_than_65s")
-        inp = {"gdt_reconstruct": {"generated_utc_ms": T, "age_ms": age}}
+        if via_vam:
+            vam = VAMMessage()
+            vam.fullfill_with_tpv_data(tpv_of({"ts": T, "lat": 41.0, "lon": 2.0}))
+            vrx.reception_callback(SimpleNamespace(data=vam_coder().encode(vam.vam)))
+        else:
+            cam = CooperativeAwarenessMessage()
+            cam.fullfill_with_tpv_data(tpv_of({"ts": T, "lat": 41.0, "lon": 2.0}))
+            data = cam_coder().encode(cam.cam)
+            rx.reception_callback(SimpleNamespace(data=data))
+        ctx.count(1, ("gdt_reconstruct" if age < 65536 else "gdt_reconstruct_older_than_65s") + ("_vam" if via_vam else ""))
+        inp = {"gdt_reconstruct": {"generated_utc_ms": T, "age_ms": age, "message": "vam" if via_vam else "cam"}}
         if len(got) != 1:
-            ctx.property_failure("cam_reception_failed", inp, "the received CAM was not delivered to the application", 1, len(got))
+            ctx.property_failure("cam_reception_failed", inp, "the received message was not delivered to the application / LDM adapter", 1, len(got))
             continue
         ts = got[0].get("utc_timestamp")
         if age < 65536 and ts != T:
@@ -784,10 +1080,81 @@ def seq_ts(rng, reps):
     return reps
 
 
+def rand_vehicle(rng):
+    return {"length": rng.choice([1, 42, 45, 1022, 1023, rng.randrange(1, 1024)]),
+            "length_conf": rng.choice(["unavailable", "noTrailerPresent", "trailerPresentWithKnownLength"]),
+            "width": rng.choice([1, 18, 20, 61, 62, rng.randrange(1, 63)]),
+            "direction": rng.choice(["forward", "backward", "unavailable"]),
+            "lights": rng.choice([0, 0x80, 0x01, 0xff, rng.randrange(256)])}
+
+
+def gen_drive(rng, quick):
+    """a vehicle driving along a straight or slowly turning course: reports at a fixed cadence, positions a few metres
+    to a few tens of metres apart, long enough for the path history of the low-frequency container to fill up and -
+    for the fast ones - to run out of the DeltaLatitude / DeltaLongitude range (1.4 km)"""
+    period = rng.choice([100, 200, 500, 1000, 1000])
+    n = rng.choice([25, 40, 60]) if quick else rng.choice([40, 90, 200])
+    lat = rng.choice([0.0, 41.387304, -33.9, 59.33, 69.65, -54.8]) + rng.randrange(-1000, 1000) / 1e4
+    lon = rng.choice([2.112485, -70.6, 18.06, 100.0, -120.0, 0.0]) + rng.randrange(-1000, 1000) / 1e4
+    speed = rng.choice([0.0, 1.5, 8.0, 14.0, 30.0, 62.0, 85.0])
+    track = rng.choice([0.0, 90.0, 180.0, 270.0, float(rng.randrange(0, 360))])
+    turn = rng.choice([0.0, 0.0, 2.0, -5.0])
+    t = t0_of(rng)
+    reps = []
+    def clear_of_integers(x, k):
+        """the nearest double whose exact scaled value is not within rounding distance of an integer (see `ambiguous`)"""
+        for _ in range(50):
+            if not ambiguous(x, k):
+                break
+            x += 1.3 / (k * 7)
+        return x
+    for k in range(n):
+        rep = {"ts": t + k * period, "lat": clear_of_integers(lat, 10**7), "lon": clear_of_integers(lon, 10**7),
+               "track": clear_of_integers(track % 360.0, 10), "speed": speed}
+        if rng.random() < 0.5:
+            rep["altHAE"] = 120.5
+        if rng.random() < 0.03:
+            del rep["lat"], rep["lon"]         # a report without a fix in the middle of the drive
+        reps.append(rep)
+        d = speed * period / 1000
+        lat += d * math.cos(math.radians(track)) / 111194.9
+        lon += d * math.sin(math.radians(track)) / (111194.9 * max(0.2, math.cos(math.radians(lat))))
+        track += turn * period / 1000
+    return {"kind": "cam", "t0": t, "station_type": rng.randrange(16), "role": rng.randrange(16), "mode": "drive",
+            "period": period, "reports": reps, "vehicle": rand_vehicle(rng), "special": rng.randrange(len(SPECIALS))}
+
+
+def gen_overlap(rng):
+    """overlapping events of ONE emergency-vehicle application: 2-5 triggers, each with its own position, altitude,
+    altitude confidence and confidence ellipse, the next one arriving while the earlier ones are still repeated"""
+    n = rng.randrange(2, 6)
+    reps = []
+    for _ in range(n):
+        r = gen_report(rng, 0, keys=["altHAE"] + [k for k in ("speed", "track") if rng.random() < 0.5])
+        if "lat" not in r:
+            r["lat"], r["lon"] = 41.5, 2.25
+        reps.append(r)
+    seq_ts(rng, reps)
+    interval = rng.choice([100, 250, 500, 1000])
+    duration = interval * rng.choice([2, 3, 5]) + rng.choice([0, 0, 1, -1])
+    gaps = [rng.choice([0, 1, interval // 2, interval, interval + 1, max(1, duration - 1), rng.randrange(1, duration)])
+            for _ in range(n - 1)]
+    nested = None
+    if rng.random() < 0.7:
+        nested = [[rng.choice(ALT_CONF), rng.choice([0, 1, 100, 4094, 4095]), rng.choice([0, 1, 50, 4094, 4095]),
+                   rng.choice([0, 900, 3600, 3601])] for _ in range(n)]
+    return {"kind": "denm", "t0": t0_of(rng), "station_type": rng.randrange(16), "request": "eva_overlap",
+            "interval": interval, "duration": duration, "gaps": gaps, "nested": nested, "reports": reps}
+
+
 def run_case(ctx, case, tag):
     if "gdt_reconstruct" in case:
         g = case["gdt_reconstruct"]
-        check_gdt_reconstruct(ctx, [(g["generated_utc_ms"], g["age_ms"])])
+        # (position 2 of a batch goes through the VAM receiver)
+        pairs = [(g["generated_utc_ms"], g["age_ms"])]
+        if g.get("message") == "vam":
+            pairs = pairs * 3
+        check_gdt_reconstruct(ctx, pairs)
     else:
         check_cases(ctx, [case], tag)
 
@@ -821,8 +1188,9 @@ def run(ctx):
     for st in range(16):
         reps = seq_ts(rng, [gen_report(rng, 0) for _ in range(2 if quick else 6)])
         cases.append({"kind": "cam", "t0": t0_of(rng), "station_type": st, "role": (st * 7 + 3) % 16,
-                      "mode": rng.choice(["run", "restart"]), "reports": reps})
-        cases.append({"kind": "cam", "t0": t0_of(rng), "station_type": (st + 5) % 16, "role": st, "mode": "run", "reports": reps[:2]})
+                      "mode": rng.choice(["run", "restart"]), "reports": reps, "vehicle": rand_vehicle(rng), "special": st})
+        cases.append({"kind": "cam", "t0": t0_of(rng), "station_type": (st + 5) % 16, "role": st, "mode": "run", "reports": reps[:2],
+                      "vehicle": rand_vehicle(rng), "special": st + 3})
         cases.append({"kind": "vam", "t0": t0_of(rng), "station_type": st, "cluster": "none", "reports": reps})
         cases.append({"kind": "denm", "t0": t0_of(rng), "station_type": st, "request": rng.choice(["eva", "crw"]), "reports": reps[:2]})
     check_cases(ctx, cases, "stations")
@@ -832,6 +1200,19 @@ def run(ctx):
         for _ in range(1 if quick else 4):
             reps = seq_ts(rng, [gen_report(rng, 0) for _ in range(3 if quick else 8)])
             cases.append({"kind": "vam", "t0": t0_of(rng), "station_type": rng.choice([1, 2, 0]), "cluster": state, "reports": reps})
+    # every VRU profile as the leader's own, every leave / break-up reason (audit round)
+    for k in range(4 if quick else 12):
+        reps = seq_ts(rng, [gen_report(rng, 0) for _ in range(2)])
+        cases.append({"kind": "vam", "t0": t0_of(rng), "station_type": 1, "cluster": rng.choice(["leader", "leader_breakup"]),
+                      "profile": k, "breakup_reason": rng.randrange(6), "reports": reps})
+    for k in range(9):
+        reps = seq_ts(rng, [gen_report(rng, 0) for _ in range(2)])
+        cases.append({"kind": "vam", "t0": t0_of(rng), "station_type": 1, "cluster": "leave_notify", "profile": k,
+                      "leave_reason": k, "reports": reps})
+    for k in range(6):
+        reps = seq_ts(rng, [gen_report(rng, 0) for _ in range(2)])
+        cases.append({"kind": "vam", "t0": t0_of(rng), "station_type": 1, "cluster": "leader_breakup", "profile": k,
+                      "breakup_reason": k, "reports": reps})
     check_cases(ctx, cases, "cluster")
     # random reports in range and the out-of-range stream
     n = 3000 if quick else 100000
@@ -846,6 +1227,10 @@ def run(ctx):
         cases.append({"kind": "denm", "t0": t0_of(rng), "station_type": rng.randrange(16), "request": "eva" if i % 2 else "crw",
                       "reports": reps[:6]})
     check_cases(ctx, cases, "rand")
+    # drives: path history of the low-frequency container, static vehicle data, special-vehicle and extension containers
+    check_cases(ctx, [gen_drive(rng, quick) for _ in range(12 if quick else 120)], "drive")
+    # overlapping events of one emergency-vehicle application: every repetition against its own trigger
+    check_cases(ctx, [gen_overlap(rng) for _ in range(25 if quick else 400)], "overlap")
     # generation time reconstruction
     pairs = []
     for _ in range(40 if quick else 400):
